@@ -438,7 +438,7 @@ func h2Scenario1(seed int64, idx int, dir string, acts []h2Act, ca *harnessCA, c
 			}
 		}
 	}()
-	closedA := false
+	closedA, goneA := false, false
 	sentFC := map[uint32]int{}
 	sentFCc := 0
 	sndOff := map[uint32]int{}
@@ -593,6 +593,23 @@ func h2Scenario1(seed int64, idx int, dir string, acts []h2Act, ca *harnessCA, c
 				err = fmt.Errorf("cannot half-close a %T", A.conn)
 			}
 			A.wmu.Unlock()
+		case "close_full":
+			// the sender closes its connection altogether: nothing can be written to it any more
+			sc.log("a_close_full")
+			closedA, goneA = true, true
+			A.wmu.Lock()
+			err = A.conn.Close()
+			A.wmu.Unlock()
+		case "bping":
+			// the receiver sends PING frames (keep-alive) that the relay has to pass on to the sender - which may be gone
+			// (the first write to a connection the peer has closed still succeeds, the second one fails)
+			for i := 0; i < 2 && err == nil; i++ {
+				sc.log("b_ping_sent")
+				B.wmu.Lock()
+				err = B.fr.WritePing(false, [8]byte{'b', 'p', 'i', 'n', 'g', 0, 0, byte(i)})
+				B.wmu.Unlock()
+				time.Sleep(60 * time.Millisecond)
+			}
 		case "goaway":
 			sc.log("a_goaway")
 			A.wmu.Lock()
@@ -679,11 +696,11 @@ func h2Scenario1(seed int64, idx int, dir string, acts []h2Act, ca *harnessCA, c
 	// direct checks at quiescence
 	amu.Lock()
 	for s, n := range sentFC {
-		if credS[s] != n {
+		if credS[s] != n && !goneA { // (a sender that has closed its connection sees no credit)
 			sc.problem(fmt.Sprintf("C09:credit: %d flow-controlled octets sent on stream %d, %d credited back", n, s, credS[s]))
 		}
 	}
-	if credC != sentFCc {
+	if credC != sentFCc && !goneA {
 		sc.problem(fmt.Sprintf("C09:credit: %d flow-controlled octets sent on the connection, %d credited back", sentFCc, credC))
 	}
 	amu.Unlock()
